@@ -150,6 +150,24 @@ def make_material(name):
         return Neohookean.create_material_model_functions({"elastic modulus": 10.0, "poisson ratio": 0.3, "version": "coupled"})
     if name == "neohookean_adagio":
         return Neohookean.create_material_model_functions({"elastic modulus": 10.0, "poisson ratio": 0.3, "version": "adagio"})
+    if name == "visco":
+        from optimism.material import HyperViscoelastic
+        with _quiet():
+            return HyperViscoelastic.create_material_model_functions({"equilibrium bulk modulus": 10.0, "equilibrium shear modulus": 1.0,
+                                                                      "non equilibrium shear modulus": 2.0, "relaxation time": 0.5})
+    if name == "multibranch":
+        from optimism.material import MultiBranchHyperViscoelastic
+        with _quiet():
+            return MultiBranchHyperViscoelastic.create_material_model_functions({
+                "equilibrium bulk modulus": 10.0, "equilibrium shear modulus": 1.0,
+                "non equilibrium shear modulus 1": 2.0, "relaxation time 1": 0.1,
+                "non equilibrium shear modulus 2": 1.0, "relaxation time 2": 1.0,
+                "non equilibrium shear modulus 3": 0.5, "relaxation time 3": 10.0})
+    if name == "j2_rate":
+        return J2Plastic.create_material_model_functions({"elastic modulus": 100.0, "poisson ratio": 0.3, "yield strength": 1.0,
+                                                          "hardening model": "linear", "hardening modulus": 5.0, "kinematics": "small deformations",
+                                                          "rate sensitivity": "power law", "rate sensitivity exponent": 1.0,   # exponent (m+1)/m = 2: potential twice differentiable at zero rate
+                                                          "rate sensitivity stress": 0.5, "reference plastic strain rate": 1.0})
     kin = {"j2_small": "small deformations", "j2_large": "large deformations"}[name]
     return J2Plastic.create_material_model_functions({"elastic modulus": 100.0, "poisson ratio": 0.3, "yield strength": 1.0,
                                                       "hardening model": "linear", "hardening modulus": 5.0, "kinematics": kin})
@@ -237,3 +255,47 @@ def fe_inputs(prob, rng, amp):
     fext = rng.standard_normal(c.shape) * (0.02 if prob["cfg"]["material"].startswith("neo") else 0.05)
     t = onp.asarray(rng.uniform(0.5, 1.5))
     return {0: b, 1: fe["state0"].copy(), 2: d, 4: t}, {"fext": fext}
+
+
+# --------------------------------------------------------------------------------------------------------------
+# preconditioner strategies (the Objective's optional precondStrategy argument, non-default)
+# --------------------------------------------------------------------------------------------------------------
+
+PRECOND_KINDS = ("none", "stale", "jacobi", "identity", "perturbed")
+
+
+def objective_with_precond(prob, kind, x_ref, p_ref, rng):
+    """An Objective on the problem's energy whose preconditioner is deliberately NOT the exact Hessian:
+      none       precondStrategy=None (the library factors the dense Hessian at the point it is asked for)
+      stale      the Hessian at (x_ref, p_ref), assembled once and returned whatever (x, p) is asked for ("initial stiffness")
+      jacobi     the diagonal of the Hessian at (x, p)
+      identity   the identity matrix
+      perturbed  S H(x, p) S with a fixed random diagonal S in [0.5, 2] (SPD, same sparsity, wrong scaling)
+    The instance is a shallow copy of the problem's base Objective (same jitted closures, so nothing is recompiled) with its
+    own SparseCholesky and the library's own PrecondStrategy around the matrix function.  All matrices are SPD, so the
+    solver's CG still converges; only the exact Hessian-vector products decide the answer."""
+    import copy
+    from scipy.sparse import csc_matrix, identity as sp_identity, diags
+    from optimism import Objective
+    from optimism.SparseCholesky import SparseCholesky
+    base = prob["obj"]
+    if kind == "none":
+        return base
+    n = prob["n"]
+    dense = lambda x, p: onp.asarray(base.hess(x, p), dtype=float)
+    if kind == "stale":
+        K0 = csc_matrix(dense(x_ref, p_ref))
+        fn = lambda x, p: K0
+    elif kind == "jacobi":
+        fn = lambda x, p: csc_matrix(diags(onp.maximum(onp.abs(onp.diag(dense(x, p))), 1e-12), 0))
+    elif kind == "identity":
+        fn = lambda x, p: csc_matrix(sp_identity(n))
+    elif kind == "perturbed":
+        sc = onp.exp(rng.uniform(math.log(0.5), math.log(2.0), size=n))
+        fn = lambda x, p: csc_matrix((dense(x, p) * sc[:, None]) * sc[None, :])
+    else:
+        raise ValueError(kind)
+    obj = copy.copy(base)
+    obj.precond = SparseCholesky()
+    obj.precondStrategy = Objective.PrecondStrategy(fn)
+    return obj
